@@ -133,7 +133,18 @@ func (g *vfGen) hostileLabel() []byte {
 	return b
 }
 
+// labels made of letters and digits outside ASCII (valid UTF-8): not token characters, so the formatted
+// parameter must be RFC 2231-encoded
+var vfLetterLabels = []string{"\u00e9", "\u043a\u043e\u04388-\u0440", "\uff55\uff54\uff46-\uff18", "latin\u0661", "caf\u00e9-1", "\u00c9", "a\u0300", "\U0001d4ca", "\u00fcber.set_1+2"}
+
 func (g *vfGen) genC02() {
+	for _, l := range vfLetterLabels {
+		for _, tmpl := range [][2]string{{"<html><meta charset=\"", "\"><body>x"}, {"<html><meta charset=", "><body>x"},
+			{"<html><meta http-equiv=content-type content='text/html; charset=", "'>"}, {"<?xml version=\"1.0\" encoding=\"", "\"?><r/>"}} {
+			g.emit(vfOp("res", []byte(tmpl[0]+l+tmpl[1]), 0))
+			g.emit(vfOp("res", []byte(tmpl[0]+l+tmpl[1]), 3072))
+		}
+	}
 	types := []string{"text/plain", "text/html", "text/xml"}
 	// the formatter / parser models against the real mime package: all 1- and 2-byte labels
 	for a := 0; a < 256; a++ {
